@@ -82,6 +82,13 @@ def blk (ws : List String) : String :=
       let (s', o) := blkOp acc.1 op
       (s', o :: acc.2)) (s0, [])
     " | ".intercalate outs.reverse
+  | ["splice", dstlen, start, stop, paylen, maxres] =>
+    -- `extending_splice` called directly: dst = 1,2,3,…; payload = 0xAA…; `stop` is the exclusive end
+    let dst : Bytes := (List.range (nat! dstlen)).map (fun i => UInt8.ofNat (i + 1))
+    let pay : Bytes := List.replicate (nat! paylen) 0xAA
+    match extendingSplice dst (nat! start) (nat! stop) pay (nat! maxres) with
+    | some d => s!"ok {d.length} {hexOfBytes (d.take 40)} {hexOfBytes (d.drop (d.length - 8))}"
+    | none => "err"
   | _ => "bad-op"
 
 end CoapLite.Driver
